@@ -8,7 +8,7 @@ import asyncio
 from vt import explore
 from vt.env.iprig import IpRig, std_handler
 
-BEHAVIOURS = ["ok", "close-m1", "http-400", "wrong-id", "bad-sig", "auth-error", "garbage", "m4-auth-error", "close-m3", "busy-error", "http-470", "ok-bad-subscribe-reply", "ok-close-on-subscribe", "ok-reset-on-subscribe", "ok+slow-close"]
+BEHAVIOURS = ["ok", "close-m1", "http-400", "wrong-id", "bad-sig", "auth-error", "garbage", "m4-auth-error", "close-m3", "busy-error", "http-470", "ok-bad-subscribe-reply", "ok-close-on-subscribe", "ok-reset-on-subscribe", "ok+slow-close", "mute", "mute-m3"]
 
 
 def mk_description(hosts, port=51826, c=1, s=1, acc_id="aa:bb:cc:dd:ee:ff"):
@@ -38,8 +38,14 @@ class ReconnH(explore.Harness):
                 conn = next(c for c in self.net.conns if getattr(c, "session", None) is sess)
                 self.loop.call_soon(conn.peer_reset if sess.close_on_subscribe == "reset" else conn.peer_close)
                 return None
+            if self.garble_next and b'"ev"' not in body:
+                # a 2xx reply whose body is not what it claims to be (not JSON / not UTF-8): the controller gives the connection up
+                kind, self.garble_next = self.garble_next, None
+                return 200, {"not-json": b"<html>busy</html>", "not-utf8": b"\xff\xfe{}", "truncated-json": b'{"characteristics":[{"aid":1,'}[kind], "application/hap+json"
             return 204, b"", None
 
+        self.garble_next = None
+        self.app_tasks = []
         self.rig.acc.handler = std_handler({("PUT", "/characteristics"): _bad_sub})
         self.alphabet = p.get("behaviours", BEHAVIOURS)
         self.triggers = p.get("triggers", ["zc-same", "zc-changed", "ensure", "ensure-t3", "cancel-ensure", "close", "shutdown", "drop", "drop-old", "late-lost"])
@@ -110,6 +116,19 @@ class ReconnH(explore.Harness):
             # secure session is fine, but the reply to the re-subscription is malformed (a 207 whose entry has no status): whatever
             # connection_made(True) does with it, the connection must not be leaked
             sess.bad_subscribe = True
+        elif beh in ("mute", "mute-m3"):
+            # the accessory accepts the connection and then says nothing (crashed, rebooting): the request of the secure-session setup stays in
+            # flight until its 30 s timer, a close(), or a reset ends it
+            n_ok = 0 if beh == "mute" else 1
+            orig = conn.handler
+
+            def handler(c, data, orig=orig, n_ok=n_ok):
+                sess.nreq += 1
+                if sess.nreq > n_ok:
+                    return
+                orig(c, data)
+
+            conn.handler = handler
         elif beh in ("close-m1", "close-m3"):
             n_needed = 1 if beh == "close-m1" else 2
             orig = conn.handler
@@ -168,6 +187,19 @@ class ReconnH(explore.Harness):
                         for trig in ("zc-same", "ensure"):
                             for k in (1, 2):
                                 m.append(f"{t}+{trig}@{k}")
+            elif t in ("close+rst", "shutdown+rst"):
+                # close()/shutdown() while the peer's RST for the connection in use (or being set up) sits in the kernel, not yet seen by the loop
+                if self.n_closes == 0 and any(c.client_open and c.peer_open and c.transport is not None for c in self.net.conns):
+                    m.append(t)
+            elif t == "double-nudge":
+                # two reconnect nudges k loop iterations apart (two announcements in a burst, an announcement racing a caller)
+                for second in ("zc-same", "ensure"):
+                    for k in (0, 1, 2):
+                        m.append(f"zc-same+{second}@{k}")
+            elif t.startswith("put-garbled"):
+                # an application write on the idle, connected session that the accessory answers with a garbled 2xx reply
+                if self._current_conn() is not None and self.pairing.is_connected and not self.garble_next and len(self.app_tasks) < 2:
+                    m.append(t)
             elif t == "zc-changed-last":
                 if len(self.cur_hosts) > 1:
                     m.append(t)  # the LAST advertised address is replaced: the new set overlaps the old one in a different member
@@ -235,6 +267,19 @@ class ReconnH(explore.Harness):
             c = next(c for c in self.callers if not c["task"].done())
             c["cancelled_by_harness"] = True
             c["task"].cancel()
+        elif k in ("close+rst", "shutdown+rst"):
+            c = [c for c in self.net.conns if c.client_open and c.peer_open and c.transport is not None][-1]
+            c.peer_reset_arrives()
+            self.env_marks.append((now, "drop"))
+            self.n_closes += 1
+            self.closed_at = now
+            if k.startswith("shutdown"):
+                self.shutdown_at = now
+            self.close_tasks.append(self.loop.create_task(self.pairing.shutdown() if k.startswith("shutdown") else self.pairing.close()))
+            for _ in range(2):
+                if self.loop.has_ready():
+                    self.loop.run_batch()
+            c.peer_reset()  # the loop's next poll sees the reset
         elif k.startswith("close") or k.startswith("shutdown"):
             base, _, rest = k.partition("+")
             self.n_closes += 1
@@ -255,6 +300,22 @@ class ReconnH(explore.Harness):
                     self.pairing._async_description_update(mk_description(self.cur_hosts, s=len(self.trigger_times) + 1))
                 else:
                     self._start_ensure("ensure")
+        elif k.startswith("zc-same+"):
+            second, _, n = k.partition("+")[2].partition("@")
+            self.trigger_times.append((now, "zc-same"))
+            self.pairing._async_description_update(mk_description(self.cur_hosts, s=len(self.trigger_times) + 1))
+            for _ in range(int(n)):
+                if self.loop.has_ready():
+                    self.loop.run_batch()
+            self.trigger_times.append((now, second))
+            if second == "zc-same":
+                self.pairing._async_description_update(mk_description(self.cur_hosts, s=len(self.trigger_times) + 1))
+            else:
+                self._start_ensure("ensure")
+        elif k.startswith("put-garbled"):
+            self.garble_next = k.partition(":")[2] or "not-json"
+            self.env_marks.append((now, "drop"))  # for the schedule oracle this is a loss of the connection at this instant
+            self.app_tasks.append(self.loop.create_task(self.pairing.put_characteristics([(1, 9, True)])))
         elif k == "drop":
             self.env_marks.append((now, "drop"))
             self._current_conn().peer_close()
@@ -298,7 +359,8 @@ class ReconnH(explore.Harness):
         if self.pairing.is_connected and opened and (cur is None or opened[0] is not cur):
             self.viol.append(("c11:connected-but-open-connection-is-not-the-current-one", {"open": [c.cid for c in opened], "t": now}))
         # quiescent => no secure-session setup is in flight: an open connection while the pairing is not connected is a leak
-        if opened and not self.pairing.is_connected and not self._pending_att():
+        setting_up = cur is not None and opened and opened[0] is cur and self.conn._connector is not None and not self.conn._connector.done()  # a silent accessory: the setup request is still in flight
+        if opened and not self.pairing.is_connected and not self._pending_att() and not setting_up:
             self.viol.append(("c11:connection-open-while-pairing-not-connected:" + getattr(opened[0], "behaviour", "?"), {"open": [c.cid for c in opened], "t": now, "closed": self.closed_at is not None}))
         # connection whose secure setup failed / superseded must be closed by the controller (quiescent => setup finished)
         if not self.net.pending() or all(a.get("hang") for a in self.net.pending()):
@@ -437,6 +499,12 @@ class ReconnH(explore.Harness):
         for c in self.callers:
             if not c["task"].done():
                 out.append(("c10:waiting-caller-pending-at-horizon", {"kind": c["kind"]}))
+        # "closing a pairing completes": 130 s of virtual time (every timer of the library is shorter) after the last event, a close() / shutdown()
+        # that is still pending will never return
+        for t in self.close_tasks:
+            if not t.done():
+                out.append(("c11:close-or-shutdown-does-not-complete", {"t": self.loop.time(), "closed_at": self.closed_at, "attempts_since": len([a for a in self.net.attempts if a["t"] > (self.closed_at or 0)])}))
+                break
         return out
 
     def _judge_schedule(self):
